@@ -53,13 +53,17 @@ def miri_cmd(pkg, args):
     return ["cargo", "+nightly", "miri", "run", "-q", "-p", pkg, "--"] + args
 
 
-def env():
+def env(prop=None):
     e = dict(os.environ)
     e["CARGO_NET_OFFLINE"] = "true"
     e.setdefault("MIRIFLAGS", "-Zmiri-disable-isolation -Zmiri-ignore-leaks")
     # do not inherit the deciding build's haswell/avx2 flags: Miri lacks many of those intrinsics
     e.pop("RUSTFLAGS", None)
     e.pop("CARGO_ENCODED_RUSTFLAGS", None)
+    if prop == "C35" and os.environ.get("VERIF_SAN_C35_PORTABLE") is None:
+        # lance-linalg's f32 SIMD wrappers call AVX intrinsics unconditionally on x86_64 (the repo builds with
+        # target-cpu=haswell); give the interpreted target the same features, Miri emulates most of AVX/AVX2
+        e["RUSTFLAGS"] = "-C target-feature=+avx,+avx2,+fma"
     return e
 
 
@@ -72,6 +76,9 @@ def classify(text, rc, timed_out):
     if "SAN-FAIL" in text:
         return "oracle_failed", first_line(text, "SAN-FAIL")
     m = UB_RE.search(text)
+    if m and "requires unavailable target features" in text:
+        # the interpreted target lacks a CPU feature the code was written for: nothing was checked
+        return "unsupported", first_line(text, "requires unavailable target features")
     if m:
         # attribute to /repo only if a frame of the report is in /repo
         tail = text[m.start():]
@@ -99,7 +106,7 @@ def run_one(prop, pkg, args, idx, timeout, seed):
     t0 = time.time()
     timed_out = False
     try:
-        p = subprocess.run(miri_cmd(pkg, args), cwd=SAN, env=env(), stdout=subprocess.PIPE,
+        p = subprocess.run(miri_cmd(pkg, args), cwd=SAN, env=env(prop), stdout=subprocess.PIPE,
                            stderr=subprocess.STDOUT, timeout=timeout, text=True, errors="replace")
         out, rc = p.stdout, p.returncode
     except subprocess.TimeoutExpired as ex:
@@ -135,7 +142,7 @@ def main():
         return 0
     # make sure the package is built once (parallel shards would only queue on the build lock)
     try:
-        b = subprocess.run(miri_cmd(pkg, ["0", "0", "1", "quick", "none"]), cwd=SAN, env=env(),
+        b = subprocess.run(miri_cmd(pkg, ["0", "0", "1", "quick", "none"]), cwd=SAN, env=env(prop),
                            stdout=subprocess.PIPE, stderr=subprocess.STDOUT, timeout=3600, text=True, errors="replace")
         build_out, build_rc = b.stdout, b.returncode
     except subprocess.TimeoutExpired:
